@@ -235,6 +235,9 @@ def linkAtomLine (defaults : Attrs) (line : String) (c : Ctx) : Option Ctx := do
     let attrs2 := attrsUpdate c.allNodes attrs1
     let old := (c.nodeAttrs k).getD []
     if attrs2.any (fun kv => match old.get kv.1 with | some v => v != kv.2 | none => false) then none
+    -- `context.nodes[prefixed_reference] = full_attributes` raises TypeError (NodeView does not
+    -- support item assignment): an atom that already exists cannot be redefined in `[ atoms ]`
+    else if c.hasNode k then none
     else pure (c.setNode k (attrsUpdate (attrsUpdate defaults old) attrs2))
   | _ => none
 
